@@ -55,8 +55,9 @@ impl DropCase {
     fn fingerprint(&self) -> u64 {
         vcommon::fp_str(&format!("{}|{:?}|{}|{:?}|{:?}|{}", self.shape.name, self.k, self.rt.name(), self.noise, self.fault, self.ds_seed))
     }
-    fn witness(&self, obs: Option<&DropObs>, what: &str) -> Json {
+    fn witness(&self, ds: &Dataset, obs: Option<&DropObs>, what: &str) -> Json {
         json!({
+            "table_contents": tables_json(ds, 2000),
             "kind": "drop-point", "shape": self.shape.name, "sql": self.shape.sql, "settings": self.shape.settings.iter().map(|(k, v)| format!("{k}={v}")).collect::<Vec<_>>(),
             "target_partitions": self.shape.target_partitions, "batch_size": 8, "mem_limit": self.shape.mem_limit,
             "drop_after_polls": self.k, "runtime": self.rt.name(), "noise": format!("{:?}", self.noise), "source_fault": format!("{:?}", self.fault),
@@ -65,6 +66,20 @@ impl DropCase {
             "replay": format!("c19 C19 --opt only={} (all drop points of the shape on both runtimes)", self.shape.name),
         })
     }
+}
+
+
+/// Contents and physical layout (partitions -> batches -> rows) of the generated tables, so that a witness can be
+/// replayed without the generator. Tables beyond `max_rows` rows in total are only described by seed + config.
+fn tables_json(ds: &Dataset, max_rows: usize) -> Json {
+    let total: usize = (0..4).map(|i| ds.table(i).iter().flatten().map(|b| b.num_rows()).sum::<usize>()).sum();
+    if total > max_rows {
+        return json!(format!("{total} rows: regenerate with dfv::sched::Dataset::new(dataset_seed, dataset)"));
+    }
+    let dump = |t: &Vec<Vec<arrow::record_batch::RecordBatch>>| -> Json {
+        json!(t.iter().map(|p| p.iter().map(|b| dfv::value::rows_to_json(&dfv::engine::batches_to_rows(std::slice::from_ref(b)))).collect::<Vec<_>>()).collect::<Vec<_>>())
+    };
+    json!({"columns": ["id BIGINT NOT NULL", "k BIGINT NOT NULL", "v BIGINT", "s VARCHAR NOT NULL"], "t1": dump(&ds.t1), "t2": dump(&ds.t2), "ts (declared ORDER BY k, id)": dump(&ds.ts), "tb": dump(&ds.tb)})
 }
 
 #[derive(Clone, Debug)]
@@ -148,12 +163,12 @@ fn run_drop_case(rep: &Report, ds: &Dataset, c: &DropCase) -> Option<DropObs> {
     match out {
         RunOutcome::Panic(p) => {
             rep.case(fp, true);
-            rep.violation(&format!("panic/{}", c.shape.name), c.witness(None, &format!("panicked: {p}")));
+            rep.violation(&format!("panic/{}", c.shape.name), c.witness(ds, None, &format!("panicked: {p}")));
             None
         }
         RunOutcome::Stuck => {
             rep.case(fp, true);
-            rep.violation(&format!("stuck-after-drop/{}", c.shape.name), c.witness(None, "virtual-time quiescence: the 1 h virtual timeout fired while polling / settling — no task runnable, no timer due"));
+            rep.violation(&format!("stuck-after-drop/{}", c.shape.name), c.witness(ds, None, "virtual-time quiescence: the 1 h virtual timeout fired while polling / settling — no task runnable, no timer due"));
             None
         }
         RunOutcome::Wall => {
@@ -210,7 +225,7 @@ fn run_drop_case(rep: &Report, ds: &Dataset, c: &DropCase) -> Option<DropObs> {
                 bad.push("spill-files-after-drop");
             }
             for b in bad {
-                rep.violation(&format!("{b}/{}", c.shape.name), c.witness(Some(&o), &format!("{b}: after the drop and {} settle rounds the observers read {} (baseline tasks {})", o.settle.rounds, a.to_json(), o.baseline)));
+                rep.violation(&format!("{b}/{}", c.shape.name), c.witness(ds, Some(&o), &format!("{b}: after the drop and {} settle rounds the observers read {} (baseline tasks {})", o.settle.rounds, a.to_json(), o.baseline)));
             }
             if rep.want_sample() && held && c.k.unwrap_or(0) >= 2 {
                 rep.sample(json!({"shape": c.shape.name, "sql": c.shape.sql, "drop_after_polls": c.k, "runtime": c.rt.name(), "observed": o.to_json()}));
@@ -625,7 +640,7 @@ fn run(args: &Args) -> i32 {
     // part 2: cancellation
     let cshapes: Vec<CancelShape> = cancel_shapes().into_iter().filter(|s| only.is_none_or(|o| o == s.name)).collect();
     let ccases: Vec<(CancelShape, RtKind)> = cshapes.iter().flat_map(|s| [(s.clone(), RtKind::Vtq), (s.clone(), RtKind::Mt(3))]).collect();
-    vcommon::par::run(args.workers, ccases.into_iter(), |(s, rt)| run_cancel_case(&rep, &ds0, &s, rt, selftest == 3 && s.name == "union"));
+    vcommon::par::run(args.workers, ccases.into_iter(), |(s, rt)| run_cancel_case(&rep, &ds0, &s, rt, selftest == 3 && s.name == "window-bounded-streaming"));
 
     // seeded random tail: other datasets, noise seeds and drop points
     let n_rand = args.bound("random", 300, 6000);
